@@ -73,7 +73,7 @@ package evalfilter
 //@   ensures @C18 compile.rows: forall a ref :: existed(a) && a != old(arr(e.instructions)) ==> rowUnchanged(byte, a)
 //@   ensures @C18 compile.functions: e.functions == old(e.functions)
 //@   ensures @C01 compile.infix.op: err == nil && istype(node, *ast.InfixExpression) && isBinOperator(node.(*ast.InfixExpression).Operator) ==> len(e.instructions) > old(len(e.instructions)) && e.instructions[len(e.instructions) - 1] == opOf(node.(*ast.InfixExpression).Operator)
-//@   ensures @C01 compile.prefix.op: err == nil && istype(node, *ast.PrefixExpression) ==> len(e.instructions) > old(len(e.instructions)) && e.instructions[len(e.instructions) - 1] == unOpOf(node.(*ast.PrefixExpression).Operator)
+//@   ensures @C01 @C05 compile.prefix.op: err == nil && istype(node, *ast.PrefixExpression) ==> len(e.instructions) > old(len(e.instructions)) && e.instructions[len(e.instructions) - 1] == unOpOf(node.(*ast.PrefixExpression).Operator)
 //@   ensures @C01 @C15 compile.int.inline: err == nil && istype(node, *ast.IntegerLiteral) && 0 <= node.(*ast.IntegerLiteral).Value && node.(*ast.IntegerLiteral).Value <= 65534
 //@             ==> len(e.instructions) == old(len(e.instructions)) + 3 && e.instructions[old(len(e.instructions))] == code.OpPush && operandAt(e, old(len(e.instructions))) == node.(*ast.IntegerLiteral).Value
 //@   ensures @C01 @C15 compile.int.pool: err == nil && istype(node, *ast.IntegerLiteral) && (node.(*ast.IntegerLiteral).Value < 0 || node.(*ast.IntegerLiteral).Value > 65534)
@@ -119,15 +119,7 @@ package evalfilter
 //@ loop 7 invariant compile.inv.fn.pool.len: len(e.constants) >= old(len(e.constants))
 //@ loop 7 invariant compile.inv.fn.pool: forall i in 0..old(len(e.constants)) :: e.constants[i] === old(e.constants[i])
 //@ loop 7 invariant compile.inv.fn.rows: forall a ref :: existed(a) ==> rowUnchanged(byte, a)
-//@ loop 8 invariant compile.inv.len: len(e.instructions) >= old(len(e.instructions)) && (arr(e.instructions) == old(arr(e.instructions)) || fresh(e.instructions))
-//@ loop 8 invariant compile.inv.prefix: forall i in 0..old(len(e.instructions)) :: e.instructions[i] == old(e.instructions[i])
-//@ loop 8 invariant compile.inv.pool.len: len(e.constants) >= old(len(e.constants))
-//@ loop 8 invariant compile.inv.pool: forall i in 0..old(len(e.constants)) :: e.constants[i] === old(e.constants[i])
-//@ loop 8 invariant compile.inv.errs: nerrs() == old(nerrs()) && e.functions == old(e.functions) && e.functions != nil
-//@ loop 8 invariant compile.inv.rows: forall a ref :: existed(a) && a != old(arr(e.instructions)) ==> rowUnchanged(byte, a)
-//@ loop 8 invariant @C18 compile.inv.patches.lo: forall k in 0..len(patches) :: old(len(e.instructions)) <= patches[k]
-//@ loop 8 invariant @C18 compile.inv.patches.hi: forall k in 0..len(patches) :: patches[k] + 2 < len(e.instructions)
-//@ loop 8 invariant compile.inv.patches.fresh: fresh(patches)
+// (loop 8 counts the case-expressions of a switch: it writes nothing)
 //@ loop 9 invariant compile.inv.len: len(e.instructions) >= old(len(e.instructions)) && (arr(e.instructions) == old(arr(e.instructions)) || fresh(e.instructions))
 //@ loop 9 invariant compile.inv.prefix: forall i in 0..old(len(e.instructions)) :: e.instructions[i] == old(e.instructions[i])
 //@ loop 9 invariant compile.inv.pool.len: len(e.constants) >= old(len(e.constants))
@@ -161,6 +153,15 @@ package evalfilter
 //@ loop 12 invariant compile.inv.pool: forall i in 0..old(len(e.constants)) :: e.constants[i] === old(e.constants[i])
 //@ loop 12 invariant compile.inv.errs: nerrs() == old(nerrs()) && e.functions == old(e.functions) && e.functions != nil
 //@ loop 12 invariant compile.inv.rows: forall a ref :: existed(a) && a != old(arr(e.instructions)) ==> rowUnchanged(byte, a)
+//@ loop 12 invariant @C18 compile.inv.patches.lo: forall k in 0..len(patches) :: old(len(e.instructions)) <= patches[k]
+//@ loop 12 invariant @C18 compile.inv.patches.hi: forall k in 0..len(patches) :: patches[k] + 2 < len(e.instructions)
+//@ loop 12 invariant compile.inv.patches.fresh: fresh(patches)
+//@ loop 13 invariant compile.inv.len: len(e.instructions) >= old(len(e.instructions)) && (arr(e.instructions) == old(arr(e.instructions)) || fresh(e.instructions))
+//@ loop 13 invariant compile.inv.prefix: forall i in 0..old(len(e.instructions)) :: e.instructions[i] == old(e.instructions[i])
+//@ loop 13 invariant compile.inv.pool.len: len(e.constants) >= old(len(e.constants))
+//@ loop 13 invariant compile.inv.pool: forall i in 0..old(len(e.constants)) :: e.constants[i] === old(e.constants[i])
+//@ loop 13 invariant compile.inv.errs: nerrs() == old(nerrs()) && e.functions == old(e.functions) && e.functions != nil
+//@ loop 13 invariant compile.inv.rows: forall a ref :: existed(a) && a != old(arr(e.instructions)) ==> rowUnchanged(byte, a)
 
 // ---- the embedding API (C20) --------------------------------------------------------------------
 //@ func (e *Eval) AddFunction(name string, fun interface{})
